@@ -359,7 +359,77 @@ pub fn builder(args: &[String]) -> Result<JValue> {
         let name = format!("typed-locals-{variant}");
         match r { Ok(Ok(None)) => {}, Ok(Ok(Some(w))) => failures.push(json!({"case": name, "what": w})), Ok(Err(e)) => failures.push(json!({"case": name, "what": format!("error: {e:#}")})), Err(_) => failures.push(json!({"case": name, "what": "panic while building / emitting"})) }
     }
+    // blocks, loops and ifs whose signature is given as (params, results) -- InstrSeqType::new --: 0..2 parameters x 0..2 results
+    for np in 0..3usize {
+        for nr in 0..3usize {
+            for kind in 0..3usize {
+                checked += 1;
+                let r = std::panic::catch_unwind(move || typed_block_case(np, nr, kind));
+                let name = format!("typed-block-{np}-params-{nr}-results-kind-{kind}");
+                match r { Ok(Ok(None)) => {}, Ok(Ok(Some(w))) => failures.push(json!({"case": name, "what": w})), Ok(Err(e)) => failures.push(json!({"case": name, "what": format!("error: {e:#}")})), Err(_) => failures.push(json!({"case": name, "what": "panic while building / emitting"})) }
+            }
+        }
+    }
     Ok(json!({"violated": !failures.is_empty(), "cases_checked": checked, "failures": failures}))
+}
+
+/// a function (params) -> (results) whose body pushes its parameters and runs ONE block / loop / if of signature (params) -> (results),
+/// built through `InstrSeqType::new`; the emitted block type must denote exactly that signature (inline form iff it fits) and validate
+fn typed_block_case(np: usize, nr: usize, kind: usize) -> Result<Option<String>> {
+    use walrus::ir::InstrSeqType;
+    let all = [ValType::I32, ValType::I64];
+    let params: Vec<ValType> = (0..np).map(|k| all[k % 2]).collect();
+    let results: Vec<ValType> = (0..nr).map(|k| all[(k + 1) % 2]).collect();
+    let mut module = Module::with_config(ModuleConfig::new());
+    let args: Vec<LocalId> = params.iter().map(|t| module.locals.add(*t)).collect();
+    let cond = module.locals.add(ValType::I32);
+    let mut fparams = params.clone(); fparams.push(ValType::I32);
+    let ty = InstrSeqType::new(&mut module.types, &params, &results);
+    let mut fb = FunctionBuilder::new(&mut module.types, &fparams, &results);
+    let fill = |b: &mut walrus::InstrSeqBuilder| {
+        for _ in 0..np { b.drop(); }
+        for t in &results { match t { ValType::I32 => { b.i32_const(1); } _ => { b.i64_const(2); } } }
+    };
+    {
+        let mut b = fb.func_body();
+        for a in &args { b.local_get(*a); }
+        match kind {
+            0 => { b.block(ty, |i| fill(i)); }
+            1 => { b.loop_(ty, |i| fill(i)); }
+            _ => { b.local_get(cond); b.if_else(ty, |i| fill(i), |i| fill(i)); }
+        }
+    }
+    let mut fargs = args.clone(); fargs.push(cond);
+    let f = fb.finish(fargs, &mut module.funcs);
+    module.exports.add("f", f);
+    let wasm = module.emit_wasm();
+    let mut feats = wasmparser::WasmFeatures::default();
+    feats.insert(wasmparser::WasmFeatures::MULTI_VALUE);
+    if let Err(e) = wasmparser::Validator::new_with_features(feats).validate_all(&wasm) { return Ok(Some(format!("emitted module does not validate: {e}"))); }
+    // the block type as emitted
+    let mut types: Vec<(Vec<wasmparser::ValType>, Vec<wasmparser::ValType>)> = vec![];
+    let mut found = None;
+    for p in wasmparser::Parser::new(0).parse_all(&wasm) {
+        match p? {
+            wasmparser::Payload::TypeSection(s) => for g in s { for st in g?.into_types() { if let wasmparser::CompositeInnerType::Func(f) = st.composite_type.inner { types.push((f.params().to_vec(), f.results().to_vec())); } } },
+            wasmparser::Payload::CodeSectionEntry(b) => for op in b.get_operators_reader()? { match op? {
+                wasmparser::Operator::Block { blockty } | wasmparser::Operator::Loop { blockty } | wasmparser::Operator::If { blockty } => { if found.is_none() { found = Some(blockty); } }
+                _ => {} } },
+            _ => {}
+        }
+    }
+    let wp = |t: &ValType| if *t == ValType::I32 { wasmparser::ValType::I32 } else { wasmparser::ValType::I64 };
+    let (wp_params, wp_results): (Vec<_>, Vec<_>) = (params.iter().map(wp).collect(), results.iter().map(wp).collect());
+    match found {
+        Some(wasmparser::BlockType::Empty) => if np != 0 || nr != 0 { return Ok(Some(format!("signature {params:?} -> {results:?} emitted as the empty block type"))); },
+        Some(wasmparser::BlockType::Type(t)) => if np != 0 || nr != 1 || t != wp_results[0] { return Ok(Some(format!("signature {params:?} -> {results:?} emitted as the inline block type {t:?}"))); },
+        Some(wasmparser::BlockType::FuncType(i)) => {
+            if np == 0 && nr <= 1 { return Ok(Some(format!("signature {params:?} -> {results:?} fits the inline form but is emitted as type index {i}"))); }
+            match types.get(i as usize) { Some((p, r)) if *p == wp_params && *r == wp_results => {}, other => return Ok(Some(format!("signature {params:?} -> {results:?} emitted as type {i} = {:?}", other))) }
+        }
+        None => return Ok(Some("no block / loop / if in the emitted body".into())),
+    }
+    Ok(None)
 }
 
 
